@@ -1693,10 +1693,20 @@ L:
 }
 
 func (c *compiler) optimizeCodeOps() {
+	targets := make([]bool, len(c.codes)+1)
+	for _, code := range c.codes {
+		switch code.op {
+		case opfork, opforktrybegin, opforkalt, opjump, opjumpifnot:
+			targets[code.v.(int)] = true
+		}
+	}
 	for i, next := len(c.codes)-1, (*code)(nil); i >= 0; i-- {
 		code := c.codes[i]
 		switch code.op {
 		case oppush, opdup, opload:
+			if targets[i+1] {
+				break // the next instruction is also reached by a jump
+			}
 			switch next.op {
 			case oppop:
 				code.op = opnop
